@@ -125,4 +125,55 @@ def tableLoglike (weighted : Bool) (rows : List (α × α)) (T : Nat) : α :=
 def tableSum (weighted : Bool) (rows : List (α × α)) : α :=
   sum (rows.map fun p => if weighted then p.1 * p.2 else p.2)
 
+/-! ## named parameter values → the vector handed to the engine
+
+`BIOGEME.beta_values_dict_to_list(beta_dict)` (used by `simulate`): a Python dict is the list of
+its items in insertion order (keys distinct).  The code walks `id_manager.free_betas.names` and
+looks every name up in the dict; an entry whose key is not a free parameter is only reported
+(`logger.warning`), a free parameter without entry raises `BiogemeError` naming it. -/
+
+/-- `for x in names: v = beta_dict.get(x); if v is None: raise …(x); beta_list.append(v)` —
+`.error x` carries the name reported by the exception (the first missing one in `names` order) -/
+def betaVector {β : Type} : List String → List (String × β) → Except String (List β)
+  | [], _ => .ok []
+  | n :: ns, d =>
+    match d.lookup n with
+    | none => .error n
+    | some v =>
+      match betaVector ns d with
+      | .error e => .error e
+      | .ok vs => .ok (v :: vs)
+
+/-- the keys the warning "Parameter … not present in the model" is logged for, in dict order -/
+def foreignKeys {β : Type} (names : List String) (d : List (String × β)) : List String :=
+  (d.map Prod.fst).filter fun k => !names.contains k
+
+/-! ## sample size and individuals (`Database.get_sample_size`, `build_panel_map`)
+
+`ids` is the panel column row by row (after `build_panel_map` sorted the rows, which is a
+permutation of the rows).  The individual map has one line per *distinct* value, in order of first
+appearance (`pandas.unique`); the sample size of panel data is its number of lines, that of
+cross-sectional data the number of rows. -/
+
+/-- `data[panelColumn].unique()` -/
+def distinct : List Int → List Int
+  | [] => []
+  | a :: l => a :: (distinct l).filter (fun b => b != a)
+
+/-- rows of individual `i`: `data.loc[data[panelColumn] == i].index` -/
+def individualRows (ids : List Int) (i : Int) : List Nat :=
+  (List.range ids.length).filter fun n => ids[n]? == some i
+
+/-- `Database.get_sample_size()`; `panel = none`: `Database.panel` was not called -/
+def sampleSize (panel : Option (List Int)) (nRows : Nat) : Nat :=
+  match panel with
+  | none => nRows
+  | some ids => (distinct ids).length
+
+/-- `calculate_likelihood` / `calculate_likelihood_and_derivatives` on a data base with `nRows`
+rows: the engine adds one value per line of the individual map (per row without panel), the
+Python layer divides **every** returned quantity by `get_sample_size()` when `scaled` -/
+def reported (panel : Option (List Int)) (nRows : Nat) (scaled : Bool) (engineValue : α) : α :=
+  scaledBy scaled engineValue (sampleSize panel nRows)
+
 end Likelihood
